@@ -1184,10 +1184,12 @@ class SSHProcess(SSHStreamSession, Generic[AnyStr]):
     def clear_writer(self, datatype: DataType) -> None:
         """Clear a writer forwarding data from the channel"""
 
+        # Forget the writer first: resuming may deliver buffered data
+        # which must not be handed to a writer that was already closed
+        del self._writers[datatype]
+
         if datatype in self._paused_write_streams:
             self.resume_feeding(datatype)
-
-        del self._writers[datatype]
 
     def close(self) -> None:
         """Shut down the process"""
